@@ -34,7 +34,8 @@ CHECKS = {
         "the call log must be exactly the requested settings.  Two further "
         "phases: case arguments mixing numbers and strings (order-free "
         "multiset oracle) and several calls on one Runner / Harvester "
-        "(nothing given to one call reaches the next).",
+        "(nothing given to one call reaches the next); a few dozen points "
+        "in grids of 10^4-10^5 cells; cases given as one dict.",
         "Uniform keys; where the values of one argument cannot be sorted the "
         "axis order is unspecified and only order-free facts are checked; "
         "None or NaN accepted for bool/str elements inside tuples.",
@@ -80,7 +81,8 @@ CHECKS = {
         "identical or conflicting data, both engines and bare names; after "
         "every step full_ds and load_ds(data_name) are read back by label "
         "against the model; expected conflicts must raise and change "
-        "nothing.  One open finding (un-synced data dropped by the next "
+        "nothing.  A further phase sweeps date-valued arguments with a "
+        "text output.  One open finding (un-synced data dropped by the next "
         "synced harvest) is excluded by construction and reported as "
         "KNOWN-FINDING.",
         "Values are float; label order is left to xarray; see "
@@ -161,7 +163,8 @@ CHECKS = {
         "recovery.  After each crash an immediate reap must refuse or be "
         "exact, the documented recovery must deliver exactly the "
         "uninterrupted result, and the earlier harvested/sampled data must "
-        "still be in its file.",
+        "still be in its file.  Sampler files as pickle and csv, Harvester "
+        "files with both engines, lazily loaded, and one beyond 64 MiB.",
         "Process death only (no power-loss model); HDF5/pandas writes are "
         "represented by three states of the target file; rmtree is emulated "
         "entry by entry in three listing orders.",
@@ -180,7 +183,8 @@ CHECKS = {
         "(quick) / 300000 (thorough) generated schedules cover crops of 1-3 "
         "batches with up to 4 growers.  The reaper must return the exact "
         "result without error and the poller must never count a file that is "
-        "not complete at that very instant.",
+        "not complete at that very instant; a reaper that removes the crop "
+        "while a straggling grower still computes must leave it removed.",
         "Threads stand in for processes on a shared POSIX directory; file "
         "reads are snapshots; liveness is not claimed.",
         "DESIGN.md section 4, C11",
@@ -196,9 +200,12 @@ CHECKS = {
         "a failing reap must leave the crop byte-identical and the corrected "
         "retry must deliver exactly the direct-run data; a succeeding reap "
         "must remove the directory iff the documented rule says so, and only "
-        "after the Harvester/Sampler file verifiably holds the new data.",
+        "after the Harvester/Sampler file verifiably holds the new data.  A "
+        "second phase runs reap(wait=True) on the real clock while another "
+        "process grows the last batches.",
         "Runs as root, so permission faults are replaced by a missing "
-        "directory and an injected OSError; wait=True only on complete crops.",
+        "directory and an injected OSError; in the enumerated phase "
+        "wait=True only on complete crops.",
         "DESIGN.md section 4, C12",
     ),
     "C13": (
@@ -236,7 +243,8 @@ CHECKS = {
         "choice lists, overrides and a logging callable as generators; after "
         "every run the table must have grown by exactly n, earlier rows must "
         "be unchanged, every new row must be drawn from the allowed values "
-        "and recompute to its own outputs, and the file must equal memory.",
+        "and recompute to its own outputs, and the file must equal memory.  "
+        "A second phase uses one output column holding tuples.",
         "n >= 1 (n = 0 is an open, listed finding); numpy RNG seeded from the "
         "case.",
         "DESIGN.md section 4, C15",
